@@ -4,7 +4,7 @@
     start found the target Idle, the result of a wait, a finishing status ...) equal the model's.
     A trace is accepted when every event is, and the final model state is quiescent with the gate full. *)
 From Coq Require Import List Arith Bool ZArith NArith.
-From Dawn Require Import Runner.Model.
+From Dawn Require Import Runner.Model Runner.Report.
 Import ListNotations.
 
 Inductive event :=
@@ -18,6 +18,7 @@ Inductive event :=
 | EvWalkCycle (l d : label)
 | EvWaitEnd (l d : label) (ok : bool)
 | EvClear (l : label)
+| EvResults (l : label) (classes : list nat)  (* what Evaluate was handed, per dependency: 0 ok, 1 failed, 2 cyclic-dependency error *)
 | EvBody (l : label) (kind : nat)        (* 0 body ran ok, 1 body failed, 2 skipped: a dependency failed *)
 | EvFinished (l : label) (code : nat)    (* the Go status constant: 2 succeeded, 3 failed *)
 | EvMainReturned
@@ -104,6 +105,16 @@ Definition replay1 (cfg : config) (s : state) (e : event) : option state :=
             (fun _ => true)
   | EvClear l =>
       at_pc cfg s l (fun p => match p with PClear => true | _ => false end) (fun _ => true)
+  | EvResults l classes =>
+      (* logged by the (fake) target after EvaluateTargets returned, before it acts on the results: no model step *)
+      match thr s l with
+      | Some t =>
+          match t_pc t with
+          | PBody => guard (list_eqb classes (map res_class (t_res t))) s
+          | _ => None
+          end
+      | None => None
+      end
   | EvBody l k =>
       at_pc cfg s l (fun p => match p with PBody => true | _ => false end)
             (fun s' => match pc_of s' l with Some (PFinish o) => Nat.eqb (outcome_kind o) k | _ => false end)
